@@ -8,7 +8,8 @@ PLAN = {
     "C14": [{"world": "exec", "share": 1, "probes": ["byzantine-payload-admitted"]}],
     "C05": [{"world": "chain", "share": 1, "probes": ["reorg-depth-1", "reorg-depth-2", "reorg-depth-3", "abandoned-tx-checked", "extended-own-tip-at-end"]}],
     "C06": [{"world": "chain", "share": 1, "probes": ["crash-scan-connect", "crash-scan-orphan-chain", "crash-scan-reorg", "recovery-wrote-to-disk"]}],
-    "C07": [{"world": "chain", "share": 1, "probes": ["reorg-depth-1", "reorg-depth-2", "reorg-depth-3", "reorg-with-handback", "extended-own-tip-at-end"]}],
+    "C07": [{"world": "chain", "share": 3, "probes": ["reorg-depth-1", "reorg-depth-2", "reorg-depth-3", "reorg-with-handback", "extended-own-tip-at-end"]},
+            {"world": "dpos", "share": 1, "probes": ["longer-chain-handed-over-after-faults"]}],
     "C08": [{"world": "dpos", "share": 1, "probes": ["liveness-phase-passed"]}],
     "C09": [{"world": "dpos", "share": 1, "probes": ["liveness-phase-passed"]}],
     "C10": [{"world": "store-trie", "share": 1,
@@ -43,7 +44,7 @@ _CHAIN = ("one case = a seeded run of the CHAIN world: a node under test on a si
 RULES.update({
     "C05": _CHAIN + "Oracle after every delivery: best links by parent hash to genesis; height index equals that path and has nothing above best; every main-chain tx resolves to (block, index) and has a receipt; receipts per main block with txs; txs only on abandoned branches are not reported confirmed; state-db root = best block's root and carries the state marker; no reorg marker; a rejected block leaves best/state/raw chain store untouched; every stored block sits under the digest of its own header.",
     "C06": _CHAIN + "For C06 some deliveries are crash-scanned: the delivery is first done fault-free while the disk journals its durable write units (single set/delete, committed DB transaction, flushed bulk; state-store bulks additionally split into chunks of 1/2/4 ops in a seeded order of the map-ordered part, and torn inside a chunk), then for EVERY prefix of that journal (and torn prefixes) the disk is rebuilt as the crash leaves it, the node restarts through the production boot + Recover path (optionally dying once more inside recovery), and the oracle requires: recovery succeeds; all C05 invariants incl. state marker of best; best is the old tip, the new tip or a tip the connection passes through (reorg: old or new branch tip only); re-feeding the same blocks reaches the fault-free best block and state root. One evaluation = one run; crash trials are counted in faults_fired.",
-    "C07": _CHAIN + "Oracle after every delivery: node best = model best (longer valid branch adopted; shorter/equal/invalid never displaces); on a reorg the txs handed back to the pool are exactly txs(old branch) - txs(new branch); at the end the node accepts one more block on its own tip and its full state (all accounts) equals that of a reference node that only ever saw the winning branch.",
+    "C07": _CHAIN + "Oracle after every delivery: node best = model best (longer valid branch adopted; shorter/equal/invalid never displaces); on a reorg the txs handed back to the pool are exactly txs(old branch) - txs(new branch); at the end the node accepts one more block on its own tip and its full state (all accounts) equals that of a reference node that only ever saw the winning branch. A quarter of the workers run the DPOS world (real consensus, clocks, LIB veto): after faults stop, a correct node that is handed, completely and in order, the strictly longer main chain of another correct node forking at or above its LIB must switch to it.",
 })
 
 _DPOS = ("one case = a seeded run of the DPOS world: 1/3/4 real DPoS producer nodes + 0-2 observers in one process (real chain service, dpos.Status/libStatus/bp.Cluster/slot, block factory generateBlock, own simulated disk and own skewed clock each), block interval 1 or 2 s; steps: slot/tick (world clock moves, every producer acts as a correct producer would at ITS local time through the production getBpInfo decision), deliver/drop/duplicate of individual in-flight blocks (reordering and delay follow), flush, partition/heal, clock skew up to +-3 slots, clean restart, sync (stand-in for the syncer: fetch a peer's main chain), transactions, a corrupting relay (one header field altered, signature kept; fields enumerated by reflection), and with 4 producers one Byzantine producer (equivocation = two siblings for one of its slots shown to different peers, out-of-turn incl. boundary milliseconds, future-dated, and a non-member signer). After the step list faults stop (heal, clocks right, stale traffic dropped) and 6 rounds are run. distinct = distinct (node, LIB, best-LIB distance, n) digests; non-trivial = at least one fault fired. ")
